@@ -18,6 +18,21 @@ CLAIMS = {
         technique=TECH_B + '; ' + TECH_A + ' for the loop-free kernels', design='3 (C13)'),
 }
 
+CLAIMS['C18'] = dict(
+    text='For every array of length <= 4 (quick) / 5 (thorough) with arbitrary contents CBMC shows celeritas::sort (heapsort, both comparators used in the '
+         'code base), partition, lower/upper_bound, lower_bound_linear, find_sorted, min_element, all_of/any_of/all_adjacent equal their reference '
+         'specification; integer helpers over full-width ints; HyperslabIndexer bijectivity; UniformGrid::find / NonuniformGrid::find / LinearInterpolator '
+         'on bit-precise IEEE doubles incl. values adjacent to grid ends. Found and fixed defect F1 (UniformGrid::find returning size-1).',
+    note='Lengths beyond the bound, comparators not listed and TwodGrid calculators are outside the claim; 12-bit operands for the multiplication oracle of '
+         'ceil_div; clang -O1 lowering; own translators (validated each run).',
+    technique=TECH_A + '; ' + TECH_B + ' (IEEE floating-point and bit-vector modes) for scalar kernels', design='3 (C18)')
+CLAIMS['C10'] = dict(
+    text='Runtime encodings only: for every well-formed postfix logic program up to length 7 (quick) / 9 (thorough) over 4 faces and every sense '
+         'assignment, the real LogicEvaluator/LogicStack agree with a reference stack machine; LogicStack laws from an arbitrary stack of depth <= 30.',
+    note='CSG tree rewriting (CsgTree::simplify, DeMorgan, PostfixLogicBuilder, InternalSurfaceFlagger) is host code over std::variant/unordered_map and '
+         'is not yet covered: only the evaluation half of the property is decided.',
+    technique=TECH_A, design='3 (C10)')
+
 NOT_APPLICABLE = {
     'C07': 'quantifies over interleavings of host threads driving whole Steppers over shared_ptr/std::vector/OpenMP state: no installed engine '
            'models concurrent libstdc++ (CBMC C++ front end cannot parse it; own IR executors are single-threaded). See DESIGN.md C07.',
